@@ -219,6 +219,7 @@ def _blocks_under_consts(g, consts):
 def _closure_side(prog, acc_ids):
     """side function for a handler closure: 'L' / 'R' for values derived from the 1st / 2nd Value
     parameter (through a typed accessor and ?)"""
+    handler_ids = {h.id for h in prog.builtin_handlers()}
     def side(body, op, at=None, depth=0):
         if depth > 4:
             return None
@@ -226,10 +227,11 @@ def _closure_side(prog, acc_ids):
         o = single_origin(origins)
         if o is None:
             return None
-        if o.kind == 'param' and body.is_closure:
-            if o.data == 2:
+        if o.kind == 'param' and (body.is_closure or body.id in handler_ids):
+            base = 2 if body.is_closure else 1     # a closure's first parameter is its environment
+            if o.data == base:
                 return 'L'
-            if o.data == 3:
+            if o.data == base + 1:
                 return 'R'
             return None
         if o.kind == 'callres' and o.data.ruid in acc_ids and o.data.args:
@@ -253,20 +255,17 @@ def rule_top(prog, rows):
     acc_ids = {b.id for b in r_value.accessors(prog)}
     side = _closure_side(prog, acc_ids)
     obs = []
-    by_closure = {}
-    for r in rows:
-        if r['closure'] and len(r['args']) == 3:      # infix registrations only
-            by_closure.setdefault(r['closure'], []).append(r['name'])
+    by_closure = _groups(rows)      # infix registrations only
     n_arms = 0
-    for cu, names in sorted(by_closure.items()):
-        clo = prog.by_id.get(cu)
+    for (cu, bk), names in sorted(by_closure.items()):
+        clo = _group_body(prog, cu, bk)
         if clo is None:
             continue
         spec_names = [n for n in names if n in spec]
         if not spec_names:
             continue
         # where is the literal match: in the closure, or in a helper that receives the captured name
-        bodies = [clo] + [prog.by_id[x] for x in prog.reach([clo.id]) if x != clo.id and not prog.by_id[x].impl_trait]
+        bodies = [clo] + ([] if getattr(clo, 'is_view', False) else [prog.by_id[x] for x in prog.reach([clo.id]) if x != clo.id and not prog.by_id[x].impl_trait])
         arms_by_body = [(b, Arms(b)) for b in bodies]
         arms_by_body = [(b, a) for b, a in arms_by_body if a.lits]
         covered = set()
@@ -279,11 +278,13 @@ def rule_top(prog, rows):
                 obs.append(bad('TOP', key0, 'registered operator(s) %s have no arm in the handler registered for %s: they fall into the default arm and silently return an operand' % (missing, names), clo.where(), body=clo.name))
             elif arms_by_body:
                 obs.append(ok('TOP', key0, 'every registered literal %s has its own arm' % names, clo.where()))
-        if not arms_by_body and len(names) == 1:
-            # single-operator closure: the whole body is the arm
+        if not arms_by_body and (len(names) == 1 or bk):
+            # single-operator closure (or one closure specialised on the fn it captured, registered under the
+            # plain and the compound literal): the whole body is the arm
             toks = _tokens_in(prog, clo, clo.live_blocks, side)
-            obs += _judge(spec, names[0], toks, clo, 'TOP|arm|%s' % names[0])
-            n_arms += 1
+            for nm in spec_names:
+                obs += _judge(spec, nm, toks, clo, 'TOP|arm|%s' % nm)
+                n_arms += 1
             continue
         for b, a in arms_by_body:
             regs = a.regions()
@@ -344,7 +345,7 @@ def rule_aggr(prog, rows):
     for r in rows:
         if r['name'] not in MUST_CONSUME_ALL or not r['closure'] or r['closure'] not in prog.by_id:
             continue
-        clo = prog.by_id[r['closure']]
+        clo = _hbody(prog, r['closure'])
         key = 'AGGR|%s' % r['name']
         nxts = [c for c in clo.live_calls if r_order.FORWARD_NEXT_RE.match(c.rdef or '')]
         if not nxts:
@@ -357,7 +358,7 @@ def rule_aggr(prog, rows):
         for _ in range(3):
             if it is not None and it.kind == 'callres' and it.data.callee in r_order.FORWARD_ITER_MAKERS:
                 nx = single_origin(trace_operand(clo, it.data.args[0], through_calls=THROUGH))
-                if nx is not None and nx.kind == 'param' and nx.data == 2 and not nx.proj:
+                if nx is not None and nx.kind == 'param' and nx.data == (2 if clo.is_closure else 1) and not nx.proj:
                     src_ok = True
                     break
                 it = nx
@@ -378,15 +379,12 @@ def rule_compound(prog, rows):
     side = _closure_side(prog, acc_ids)
     sig = {}
     where = {}
-    by_closure = {}
-    for r in rows:
-        if r['closure'] and len(r['args']) == 3:
-            by_closure.setdefault(r['closure'], []).append(r['name'])
-    for cu, names in sorted(by_closure.items()):
-        clo = prog.by_id.get(cu)
+    by_closure = _groups(rows)
+    for (cu, bk), names in sorted(by_closure.items()):
+        clo = _group_body(prog, cu, bk)
         if clo is None:
             continue
-        bodies = [clo] + [prog.by_id[x] for x in prog.reach([clo.id]) if x != clo.id and not prog.by_id[x].impl_trait]
+        bodies = [clo] + ([] if getattr(clo, 'is_view', False) else [prog.by_id[x] for x in prog.reach([clo.id]) if x != clo.id and not prog.by_id[x].impl_trait])
         got = False
         for b in bodies:
             a = Arms(b)
@@ -399,10 +397,11 @@ def rule_compound(prog, rows):
                     sig[lit] = sorted((c, t_, s) for (c, t_, s, w) in toks)
                     where[lit] = b
                     got = True
-        if not got and len(names) == 1:
+        if not got and (len(names) == 1 or bk):
             toks = _tokens_in(prog, clo, clo.live_blocks, side)
-            sig[names[0]] = sorted((c, t_, s) for (c, t_, s, w) in toks)
-            where[names[0]] = clo
+            for nm in names:
+                sig[nm] = sorted((c, t_, s) for (c, t_, s, w) in toks)
+                where[nm] = clo
     obs = []
     n = 0
     for lit in sorted(sig):
@@ -445,13 +444,14 @@ def rule_unary(prog, rows):
     obs = []
     def side(body, op, at=None):
         o = single_origin(trace_operand_at(body, op, at, through_calls=SIDE_THROUGH) if at is not None else trace_operand(body, op, through_calls=SIDE_THROUGH))
-        return 'L' if o is not None and o.kind == 'param' and o.data == 2 else None
+        return 'L' if o is not None and o.kind == 'param' and o.data == (2 if body.is_closure else 1) else None
     n = 0
     for r in rows:
         if r['args'] or r['name'] not in UNARY_SPEC or not r['closure'] or r['closure'] not in prog.by_id:
             continue
-        clo = prog.by_id[r['closure']]
-        if clo.arg_count < 2 or clo.locals[2]['ty'] != 'value::Value':
+        clo = _hbody(prog, r['closure'])
+        pb = 2 if clo.is_closure else 1
+        if clo.arg_count < pb or clo.locals[pb]['ty'] != 'value::Value':
             continue
         n += 1
         name = r['name']
@@ -478,6 +478,84 @@ def rule_unary(prog, rows):
     return obs
 
 
+def _groups(rows):
+    """{(handler closure, what it captured): [operator names registered with it]} for the infix registrations"""
+    out = {}
+    for r in rows:
+        if r['closure'] and len(r['args']) == 3:
+            bk = tuple(sorted((r.get('bind') or {}).items()))
+            out.setdefault((r['closure'], bk), []).append(r['name'])
+    return out
+
+
+def _group_body(prog, cu, bk):
+    """the handler body; for a handler produced by a factory (one closure, a different captured fn per operator)
+    the closure specialised on the captured fn, with that fn and the private helpers inlined"""
+    import r_table
+    clo = prog.by_id.get(cu)
+    if clo is None or not bk:
+        return clo
+    consts = {i: r_table.FN_CONSTS[v] for i, v in bk if isinstance(v, str) and v in r_table.FN_CONSTS}
+    if len(consts) != len(bk):
+        return clo
+    return prog.view(clo, keep=lambda g: g.is_pub or bool(g.impl_trait), tag='spec:%r' % (bk,), upvar_consts=consts)
+
+
+def _loop_carried(body, op, depth=0):
+    """does the operand read (through moves / copies / borrows / payload projections) a local that has more than
+    one whole definition?"""
+    pl = op_place(op) if isinstance(op, dict) and op.get('k') in ('move', 'copy') else None
+    du = defuse(body)
+    seen = set()
+    while pl is not None and pl['l'] not in seen and depth < 12:
+        depth += 1
+        seen.add(pl['l'])
+        if pl['l'] <= body.arg_count:
+            return False
+        defs = du.whole_defs(pl['l'])
+        if len(defs) > 1:
+            return True
+        if len(defs) != 1 or defs[0][2] != 'assign':
+            return False
+        rv = defs[0][3]
+        if rv['k'] == 'use' and rv['op']['k'] in ('move', 'copy'):
+            pl = rv['op']['pl']
+        elif rv['k'] == 'ref':
+            pl = rv['pl']
+        elif rv['k'] == 'agg' and rv.get('agg') == 'closure':
+            return False
+        else:
+            return False
+    return False
+
+
+def _hbody(prog, cid):
+    """the handler body as written, or (fallback reading) with its private helpers, combinator closures and
+    fn-pointer arguments inlined"""
+    b = prog.by_id[cid]
+    if getattr(prog, '_handler_views', False):
+        return prog.view(b, keep=lambda g: g.is_pub or g.impl_trait, tag='handler')
+    return b
+
+
+def with_views(prog, rule, rows):
+    first = rule(prog, rows)
+    if not any(o.status == 'violated' for o in first):
+        return first
+    prog._handler_views = True
+    try:
+        second = rule(prog, rows)
+    except Exception:
+        second = None
+    finally:
+        prog._handler_views = False
+    if second is not None and not any(o.status == 'violated' for o in second):
+        for o in second:
+            o.what = (o.what or '') + ' [read with helpers / combinator closures inlined]'
+        return second
+    return first
+
+
 def rule_fold(prog, rows):
     """min / max compare each argument with the running result in the right direction; sum / mul fold
     with + / * from the neutral element 0 / 1"""
@@ -485,10 +563,12 @@ def rule_fold(prog, rows):
     for r in rows:
         if r['name'] not in ('min', 'max', 'sum', 'mul') or not r['closure'] or r['closure'] not in prog.by_id:
             continue
-        clo = prog.by_id[r['closure']]
+        clo = _hbody(prog, r['closure'])
         name = r['name']
         key = 'TOP|fold|%s' % name
         def side(body, op, at=None):
+            if _loop_carried(body, op):
+                return 'A'      # the running result: a local with more than one definition (initial value + update)
             origins = trace_operand_at(body, op, at, through_calls=SIDE_THROUGH) if at is not None else trace_operand(body, op, through_calls=SIDE_THROUGH)
             kinds = set()
             for o in origins:
